@@ -279,6 +279,35 @@ func (e *linEnv) linTerm(t *Term) (Lin, error) {
 			return e.linTerm(t.C.Term(ph.Edges[i]))
 		}
 		return linVar(t), nil
+	case "extract":
+		// integer result i of a small loop-free repo helper with several results: split over its
+		// return sites (the error / ok results of the same call are tied to the same sites through
+		// the path conditions, see nilDecided)
+		if len(t.Args) == 1 && t.Args[0].Kind == "call" {
+			ct := t.Args[0]
+			idx := 0
+			fmt.Sscan(t.Name, &idx)
+			if ct.Fn != nil && e.root != nil && e.root.inlinable(ct.Fn) && idx < ct.Fn.Signature.Results().Len() && isInteger(resultType(ct.Fn, idx)) {
+				ch := e.root.childTerm(ct)
+				var rets []*ssa.Return
+				for _, b := range ct.Fn.Blocks {
+					if r, ok := b.Instrs[len(b.Instrs)-1].(*ssa.Return); ok {
+						rets = append(rets, r)
+					}
+				}
+				key := "ret:" + ct.Key()
+				i, ok := e.choices[key]
+				if !ok {
+					if len(rets) == 1 {
+						i = 0
+					} else {
+						return Lin{}, &needChoice{key: key, n: len(rets), guard: func(i int) *Formula { return ch.BlockPC(rets[i].Block()) }}
+					}
+				}
+				return e.linTerm(ch.Term(rets[i].Results[idx]))
+			}
+		}
+		return linVar(t), nil
 	case "call":
 		// builtin min / max of integers: split on which argument wins
 		if t.Fn == nil && (t.Name == "min" || t.Name == "max") && len(t.Args) >= 2 && intTerm(t.Args[0]) {
